@@ -96,8 +96,13 @@ CHECKS["C07"] = {
     "parts": [
         {"name": "atomic", "pkg": ROOT, "test": "TestVerifC07", "kind": "rapid",
          "checks_quick": 40, "checks_thorough": 1200, "shards_quick": 8, "shards_thorough": 16, "timeout_quick": 300, "timeout_thorough": 1800},
+        {"name": "retry", "pkg": ROOT, "test": "TestVerifC07Retry", "kind": "rapid",
+         "checks_quick": 6, "checks_thorough": 60, "shards_quick": 4, "shards_thorough": 8, "timeout_quick": 300, "timeout_thorough": 1800},
     ],
 }
+CHECKS["C07"]["level_text"] += (" Part retry: one forwarded atomic call while the owner stalls once, between reading and writing, for longer than the internal client's read timeout (default re-sending switched on, timeout shortened): "
+                                "one acknowledged call must have exactly one effect. All other harness clusters run with re-sending switched off.")
+CHECKS["C07"]["assumptions"].append("outside part retry the members' internal client does not re-send a request that timed out (recorded finding: a re-sent atomic operation is applied twice)")
 
 CHECKS["C08"] = {
     "level": "exploration",
